@@ -916,7 +916,7 @@ func (c *ctx) zkSpecial(g *zkGen, d *zkDef, k *zkKeys, t zkTriple, inst *zkInst)
 			c.res.Note("zkfac: Proof.Sigma is not part of the Fiat-Shamir transcript; (Sigma+d, V+d*e) gives Go verdict %d, model verdict %d", gv, mv)
 		}
 	case "mod":
-		// Proof.IsValid is never called by Verify: X and Z are not range checked
+		// Verify calls Proof.IsValid (fix "zkmod.Verify validates W and the responses"): X and Z outside [1,N) must be refused
 		n := t.pub.L[0].Z
 		rs := t.resp.L[0]
 		mk := func(i, f int, v *big.Int) sx.V {
